@@ -123,10 +123,18 @@ type Pair struct {
 
 // StartPair starts A (dialer, hidden) and B (acceptor) and a relay in front of B; A reaches B only through the relay.
 func StartPair(a, b NodeOpts) (*Pair, error) {
+	return StartPairStaggered(a, b, 0)
+}
+
+// StartPairStaggered starts B, waits, then starts A: with a gap above one second the two nodes have different incarnation stamps.
+func StartPairStaggered(a, b NodeOpts, gap time.Duration) (*Pair, error) {
 	a.Hidden = false // (in hidden mode the node ignores NetworkOptions.Handshake)
 	nb, _, err := StartNode(b)
 	if err != nil {
 		return nil, fmt.Errorf("node B: %w", err)
+	}
+	if gap > 0 {
+		time.Sleep(gap)
 	}
 	port, err := AcceptorPort(nb)
 	if err != nil {
